@@ -5,7 +5,7 @@ import json
 import random
 
 from . import coqrun, ksched, kvalue, sched_cases, tz
-from .terms import Keys, enc, same
+from .terms import Keys, coq_term, enc, same
 from .tz import tawazi
 
 
@@ -414,6 +414,32 @@ def run(pid, tier, seed, res, p_sub=None, p_flag=None, only=None):
                 continue
             where.append(("kvalue", pi, ai, r, m, base))
             items.append(m["kvalue"])
+            # argument binding: what the scheduler was handed vs Args.bind on the DAG-level map
+            try:
+                d_ = r["dag"]
+                ids_ = m["ids"]
+                res0_ = r["ctl"].res0s[0]
+                show_ = sorted(k_ for k_ in set(res0_.keys()) | set(d_.results.keys()) if k_ in ids_.idx)
+                inputs_ = [u.id for u in d_.input_uxns]
+                if all(i_ in ids_.idx for i_ in inputs_):
+                    bterm = "kbind %s %s [%s] %s" % (kvalue.res0_coq(dict(d_.results), ids_, r["keys"]), coqrun.nat_list(ids_.l(inputs_)),
+                                                    "; ".join(coq_term(a_, r["keys"]) for a_ in args), coqrun.nat_list(ids_.l(show_)))
+                    expect_ = [1]
+                    for k_ in show_:
+                        expect_ += ([1] + enc(res0_[k_], r["keys"])) if k_ in res0_ else [0]
+                    where.append(("bind", pi, ai, r, dict(expect=expect_, show=show_), base))
+                    items.append(bterm)
+                    if ai == 0:
+                        # one argument more than the DAG has parameters: TypeError, in the model and in the implementation
+                        many_ = list(args) + [kvalue.Const(7, True)] * (len(inputs_) - len(args) + 1)
+                        st_ = tz.run_controlled(lambda: d_(*many_), tz.Ctl(free_run=True), is_async=is_async)
+                        if not (st_[0] == "raise" and isinstance(st_[1], TypeError)):
+                            for p_ in ("C01", "C14"):
+                                res.hit(p_, "monitor", "a call with %d arguments of a DAG with %d parameters gave %r instead of raising TypeError" % (len(many_), len(inputs_), st_), dict(base, kind="monitor"))
+                        where.append(("bind", pi, ai, r, dict(expect=[0], show=["<too many arguments>"]), base))
+                        items.append("kbind %s %s [%s] []" % (kvalue.res0_coq(dict(d_.results), ids_, r["keys"]), coqrun.nat_list(ids_.l(inputs_)), "; ".join(coq_term(a_, r["keys"]) for a_ in many_)))
+            except BaseException as e_:  # noqa: BLE001
+                res.notes.append("argument binding not expressible: %s: %s" % (type(e_).__name__, str(e_)[:100]))
             if "kvrun" in m:
                 where.append(("kvrun", pi, ai, r, m, base))
                 items.append(m["kvrun"])
@@ -433,7 +459,7 @@ def run(pid, tier, seed, res, p_sub=None, p_flag=None, only=None):
                     items.append(em["b"])
     prefix = "kvalue_%s" % pid
     coqrun.clean_build(prefix)
-    paths = coqrun.write_shards(prefix, "Graph Sched Dataflow Terms IsoCheck", items, per_file=60)
+    paths = coqrun.write_shards(prefix, "Graph Sched Dataflow Terms IsoCheck Args ArgsCheck", items, per_file=60)
     import time as _t
     _t0 = _t.time()
     results, errors = coqrun.run_shards(paths)
@@ -450,6 +476,12 @@ def run(pid, tier, seed, res, p_sub=None, p_flag=None, only=None):
             continue
         (si, vi) = r["impl"]
         props_ = ["C01", "C02"] + (["C10"] if has_flags(prog) else []) + (["C20"] if has_subs(prog) else [])
+        if kind == "bind":
+            if v != m["expect"]:
+                for p in ["C01", "C15"] + (["C10"] if has_flags(prog) else []) + (["C20"] if has_subs(prog) else []):
+                    res.hit(p, "divergence", "K-bind: the results map handed to the scheduler differs from Args.bind (copy of the DAG-level map with the i-th argument overriding the i-th input): ids %s, implementation %s, model %s" % (m["show"], m["expect"][:40], v[:40]),
+                            dict(base, kind="divergence"))
+            continue
         if kind == "canon":
             res.traces_validated += 1
             if v:
